@@ -11,6 +11,7 @@ CONSTANTS
   FixedStar = TRUE
   FixedFinalInString = TRUE
   FixedNestedLiteral = TRUE
+  BugBuiltinsFirst = FALSE
   AnnChoices = {"noann"}
   DefaultChoices = {"none"}
   RetChoices = {"noann"}
